@@ -514,6 +514,11 @@ where
         // Update merkle tree
         self.tree = tree;
 
+        // Records were collected iterating backwards,
+        // return them in the order they were appended
+        // so they can be applied again to revert
+        let mut records = records;
+        records.reverse();
         Ok(records)
     }
 
